@@ -223,14 +223,14 @@ func (c *collector) add(v *core.Violation) *core.Violation {
 func checkC(c CaseC) *core.Violation {
 	fx, err := svcx.New(true)
 	if err != nil {
-		return inconclusive("fixture: %v", err)
+		return skip("fixture", err)
 	}
 	defer fx.Close()
 	ts := fx.TS
 	col := &collector{known: svcx.KnownOpen("C16")}
 
 	if err := ts.ListenerStart(handlers.LISTENER_EXTERNAL, handlers.ExternalConfig{Name: svcx.OpExt, Endpoint: "opext"}); err != nil {
-		return inconclusive("op-ext: %v", err)
+		return skip("op-ext", err)
 	}
 	if c.NConn < 1 || c.NConn > 8 {
 		return nil
@@ -239,7 +239,7 @@ func checkC(c CaseC) *core.Violation {
 	m := &modelC{}
 	for i := 0; i < c.NConn; i++ {
 		if conns[i], err = fx.Connect(i); err != nil {
-			return inconclusive("service connect %d: %v", i, err)
+			return skip("service-connect", err)
 		}
 		// routine() - and with it the barrier's reply - starts only after the connection was
 		// appended to s.clients: connections are therefore accepted in this order.
@@ -259,7 +259,7 @@ func checkC(c CaseC) *core.Violation {
 	abrupt := func(id int) bool { return id < len(c.Abrupt) && c.Abrupt[id] }
 	marker := uint32(0)
 
-	compare := func(when string) *core.Violation {
+	compare := func(kind, when string) *core.Violation {
 		s := snapshotC(ts)
 		var eps []string
 		for _, x := range m.exc2 {
@@ -272,7 +272,7 @@ func checkC(c CaseC) *core.Violation {
 			{"exc2-endpoints", strings.Join(s.endpoints, ","), strings.Join(eps, ",")},
 		} {
 			if p.got != p.want {
-				return core.V("svc|register|"+p.what+"|"+when, "%s: registry %s holds [%s], the registrations so far amount to [%s]", when, p.what, p.got, p.want)
+				return core.V("svc|register|"+p.what+"|after-"+kind, "%s: registry %s holds [%s], the registrations so far amount to [%s]", when, p.what, p.got, p.want)
 			}
 		}
 		return nil
@@ -472,7 +472,7 @@ func checkC(c CaseC) *core.Violation {
 		if !svcx.Quiesce() {
 			return inconclusive("teamserver goroutines did not come to rest")
 		}
-		if v := compare(step); v != nil {
+		if v := compare(op.Op, step); v != nil {
 			return v
 		}
 	}
@@ -564,7 +564,7 @@ func TestC16c(t *testing.T) {
 	core.Run(t, core.Spec[CaseC]{
 		Property: "C16", Sub: "c",
 		Rule: "2-3 real websocket service connections (authenticated against the route registered by the real Service.Start) register agent types (pool of 3 names with distinct magic values), service-defined listener kinds (pool of 2) and External-C2 listeners/endpoints (pool of 3) in generated interleaved order - a taken name may be tried again by anybody - and leave (clean close frame or abrupt TCP close) in generated order, some in the middle; after each registration the four registries (Service.Agents, Service.Listeners, ExC2 entries of ts.Listeners, ts.Endpoints) equal the first-come-first-served model; after each disconnect exactly the leaver's items are gone, the operator's own External listener is untouched, and every surviving agent type is relayed (agent request with its magic value through the operator endpoint and every surviving ExC2 endpoint, answered by the owning connection) and every surviving listener kind still forwards a start request to its connection. Non-trivial: >=2 connections and a connection that is not the most recently accepted one leaves; distinct = (#connections, non-last leaves 0/1/2+, taken-name attempts 0/1/2+, connections with >=2 items 0/1/2+, kinds registered)",
-		Gen:   genC, Check: checkC, Classify: classifyC,
+		Gen:  genC, Check: checkC, Classify: classifyC,
 		Assumptions: []string{
 			"registrations and disconnects are applied one at a time (orders, not concurrent schedules): each step is followed by a request/reply barrier on the same connection or by the connection goroutine's exit",
 			"the External-C2 route function is invoked directly with a gin test context, as the closure registered in Start() for POST /:endpoint does",
